@@ -105,8 +105,8 @@ def exhaustive_instances(thorough):
                    reach=("private",), fm=("id", "droppub"), first=False, close=1, env=3, notify=1), 1),
         ("xsplit", C(pool=("Lun",), natk=("Lpriv",), natc=("-", "Npub"), obsk=("Lpriv", "Ri1"), obsc=("e", "c"), relay=(("Rel1",),),
                      reach=("private",), split=True, first=False, close=1, env=2, notify=1), 1),
-        ("xtrk", C(pool=("Lpub",), obsk=("Lpriv",), obsc=("e", "b"), relay=(("Rel1",),), tracker=True, first=False, close=1,
-                   env=2, t=2, hour=1, notify=1), 1),
+        ("xtrk", C(pool=("Lpub",), obsk=("Lpriv",), obsc=("e", "a"), relay=(("Rel1",),), tracker=True, first=False, close=1,
+                   env=2, t=1, hour=1, notify=1), 1),
     ]
     if thorough:
         out = [
@@ -253,6 +253,8 @@ def _print_instance(args):
     walks = g.covering_walks(seed=ctx.seed, max_len=70, limit_edges=limit)
     if limit is None and getattr(g, "covered", g.n_edges()) < g.n_edges():
         raise MachineryError("covering walks of %s cover %d of %d edges" % (name, g.covered, g.n_edges()))
+    # the model merges histories the code may tell apart: seeded random walks on top of the covering ones
+    walks += g.random_walks(600 if ctx.tier == "thorough" else 150, 40, seed=ctx.seed)
     hdr = dict(consts["_hdr"], instance=name, edges=g.n_edges(), states=g.n_states())
     graph.write_behaviours(os.path.join(beh_dir, name + ".jsonl"), walks, hdr)
     target = g.n_edges() if limit is None else min(limit, g.n_edges())
@@ -278,7 +280,9 @@ def run(ctx):
         fp = [pool.submit(_print_instance, (ctx, i, beh)) for i in rin]
         fx = [pool.submit(_exhaustive, (ctx, i)) for i in xin]
         fl = [pool.submit(_liveness, (ctx, i)) for i in lin]
-        fg = [pool.submit(_reach, (ctx, p, by_name[c] if isinstance(c, str) else c)) for p, c in PROBES]
+        # quick: the probes whose states the printed transition kinds (NEED) do not witness; thorough: all
+        probes = PROBES if thorough else [x for x in PROBES if x[0] in ("ReachTorn", "ReachDedup")]
+        fg = [pool.submit(_reach, (ctx, p, by_name[c] if isinstance(c, str) else c)) for p, c in probes]
         pres = [f.result() for f in fp]
         mark("graphs")
         fgo = tp.submit(_go, ctx, beh)
